@@ -11,6 +11,12 @@ import (
 type Property struct {
 	Meta core.PropertyMeta
 	Run  func(p *core.Program, r *core.Report)
+	// Fixture names a directory under checker/fixtures holding a tiny module
+	// with one seeded positive per zero-expected-count rule; FixtureExpects
+	// lists the rule ids that must report at least one violation there on
+	// every run (otherwise the rule is blind and the check fails).
+	Fixture        string
+	FixtureExpects []string
 }
 
 var registry = map[string]*Property{}
